@@ -124,15 +124,17 @@ func runHeap(c *HeapCase) (interface{}, error) {
 	birth := []tokObs{observeTok(root, pub)}
 	type bb struct {
 		b    biscuit.BlockBuilder
-		rb   biscuit.Builder // authority builder (newbuilder / buildroot)
-		tok  int
-		adds int
+		rb    biscuit.Builder // authority builder (newbuilder / buildroot)
+		tok   int
+		adds  int
+		added []int // symbol numbers put in so far
 	}
 	bbs := []*bb{}
 	type blk struct {
 		b     *biscuit.Block
 		tok   int
 		birth []string
+		syms  []int // what its caller had put into the builder when it was built
 	}
 	blks := []*blk{}
 	bad := []string{}
@@ -197,6 +199,7 @@ func runHeap(c *HeapCase) (interface{}, error) {
 		case "add":
 			x := bbs[op.B-1]
 			x.adds++
+			x.added = append(x.added, op.S)
 			p := biscuit.Predicate{Name: symName(c.Emb, op.S), IDs: []biscuit.Term{biscuit.Integer(int64(100*op.B + x.adds))}}
 			var err error
 			if x.rb != nil {
@@ -221,7 +224,7 @@ func runHeap(c *HeapCase) (interface{}, error) {
 			if b == nil {
 				return map[string]interface{}{"bad": bad, "tokens": len(toks), "blocks": len(blks)}, nil
 			}
-			blks = append(blks, &blk{b: b, tok: x.tok, birth: biscuit.VerifBlockSymbols(b)})
+			blks = append(blks, &blk{b: b, tok: x.tok, birth: biscuit.VerifBlockSymbols(b), syms: append([]int{}, x.added...)})
 			k := len(blks) - 1
 			if k < len(c.BWant) {
 				want := []string{}
@@ -240,6 +243,18 @@ func runHeap(c *HeapCase) (interface{}, error) {
 			}
 			toks = append(toks, nt)
 			birth = append(birth, observeTok(nt, pub))
+		case "xappend":
+			// a block built for ANOTHER token that declares a symbol the target already has: the library must refuse it
+			// (SymHeap!CrossAppendRefused); if it is accepted all the same, the new token must carry what its callers put in
+			x := blks[op.K-1]
+			if nt, err := toks[op.T-1].Append(nil2rand(), x.b); err == nil {
+				o := observeTok(nt, pub)
+				want := append(append([]int{}, birth[op.T-1].Syms...), x.syms...)
+				if !sameInts(o.Syms, want) {
+					bad = append(bad, fmt.Sprintf("step %d xappend: block %d (built for token %d, sharing a symbol with token %d) was accepted by Append and the new token carries symbols %v, its callers put in %v",
+						step, op.K, x.tok+1, op.T, o.Syms, want))
+				}
+			}
 		case "getblockid":
 			// the looked-up symbol occurs as the predicate name, as a top-level term or inside a set (name and other terms known)
 			switch nm := symName(c.Emb, op.S); (c.Emb + int64(step)) % 3 {
@@ -431,7 +446,84 @@ func init() {
 					toks = append(toks, tk{})
 				}
 			}
-			out(HeapCase{ID: fmt.Sprintf("h%d", i), Emb: seed*131 + int64(i), Hist: hist})
+			out(HeapCase{ID: fmt.Sprintf("h%d", i), Emb: seed*131 + int64(i), Hist: insertCross(hist, r)})
 		}
 	}
+}
+
+// insertCross replays a history abstractly (symbols per token, own symbols per built block) and inserts, after an append,
+// "xappend" operations: a block built for another token whose own symbols overlap the new token's table (two builders of one
+// parent that interned the same fresh symbol).  xappend changes nothing in the specification (CrossAppendRefused).
+func insertCross(hist []HeapOp, r interface{ Intn(int) int }) []HeapOp {
+	type set map[int]bool
+	cp := func(s set) set {
+		o := set{}
+		for k := range s {
+			o[k] = true
+		}
+		return o
+	}
+	toks := []set{{}}
+	type bbT struct {
+		tok  int
+		adds []int
+	}
+	bbs := []bbT{}
+	type blkT struct {
+		tok int
+		own set
+	}
+	blks := []blkT{}
+	out := []HeapOp{}
+	for _, op := range hist {
+		out = append(out, op)
+		switch op.Op {
+		case "create":
+			bbs = append(bbs, bbT{tok: op.T})
+		case "newbuilder":
+			bbs = append(bbs, bbT{tok: 0})
+		case "add":
+			bbs[op.B-1].adds = append(bbs[op.B-1].adds, op.S)
+		case "build":
+			b := bbs[op.B-1]
+			own := set{}
+			for _, s := range b.adds {
+				if !toks[b.tok-1][s] {
+					own[s] = true
+				}
+			}
+			blks = append(blks, blkT{tok: b.tok, own: own})
+		case "buildroot":
+			t := set{}
+			for _, s := range bbs[op.B-1].adds {
+				t[s] = true
+			}
+			toks = append(toks, t)
+		case "seal", "reload":
+			toks = append(toks, cp(toks[op.T-1]))
+		case "append":
+			k := blks[op.K-1]
+			t := cp(toks[k.tok-1])
+			for s := range k.own {
+				t[s] = true
+			}
+			toks = append(toks, t)
+			nt := len(toks)
+			for k2, b2 := range blks {
+				if k2+1 == op.K || b2.tok == nt {
+					continue
+				}
+				overlap := false
+				for s := range b2.own {
+					if t[s] {
+						overlap = true
+					}
+				}
+				if overlap && r.Intn(2) == 0 {
+					out = append(out, HeapOp{Op: "xappend", K: k2 + 1, T: nt})
+				}
+			}
+		}
+	}
+	return out
 }
